@@ -11,6 +11,7 @@ CONSTANTS
     MaxNow = 1000
     MaxOps = 1000
     MaxQ = 2
+    EmptyOn = 1
     Hist = FALSE
     Depth = 150
 INVARIANTS EmitSchedule
